@@ -25,13 +25,14 @@ class AioRunner:
         self.handler_calls = []
         self.handler = _CountHandler()
         self.logger = logging.getLogger(f"verif.aio.{id(self)}")
-        self.logger.handlers = [self.handler]
+        self.logger.handlers = [] if scn.get("late_handler") else [self.handler]
         self.logger.propagate = False
         self.logger.setLevel(logging.DEBUG)
         self.dflt = scn.get("dflt") or {"acts": [], "raises": False}
         self.arg_failures = []
         self.cells = []
         self.del_events = []   # (instant, acting job, deleted job) for deletions done by coroutines
+        self.probes = []
 
     # -------------------------------------------------------------- coroutines
     def make_coro(self, cell):
@@ -71,6 +72,8 @@ class AioRunner:
             except asyncio.CancelledError:
                 runner.events.append((CLOCK.instant, key, "C", due))
                 raise
+            # probe at the next loop iteration, i.e. right after the supervisor step that books this run
+            asyncio.get_running_loop().call_soon(runner.probe, key)
             if script.get("raises"):
                 runner.events.append((CLOCK.instant, key, "X", due))
                 raise ValueError("scripted failure")
@@ -78,6 +81,14 @@ class AioRunner:
 
         cb.__qualname__ = "cb"
         return cb
+
+    def probe(self, key):
+        """is the job still registered right after the step that completed one of its runs?"""
+        try:
+            job = self.created[key]
+            self.probes.append((CLOCK.instant, key, 1 if job in self.sched.jobs else 0, 1 if job.has_attempts_remaining else 0, job.attempts))
+        except Exception as e:  # noqa: BLE001
+            self.probes.append((CLOCK.instant, key, -1, -1, repr(e)[:80]))
 
     def do_sched(self, o, runs):
         call = CALLS[o["call"]]
@@ -96,7 +107,9 @@ class AioRunner:
             args = {"none": None, "empty": (), "one": (payload,), "many": (payload, "x", 3.5, None, b"b"),
                     "nested": (payload, [1, [2, 3]], {"k": (4, 5)})}[o.get("argshape", "one")]
             kwargs = {"none": None, "empty": {}, "one": {"p": payload},
-                      "many": {"p": payload, "a": 1, "b": "two", "c": None, "d": (1, 2), "e": 2.5}}[o.get("kwshape", "one")]
+                      "many": {"p": payload, "a": 1, "b": "two", "c": None, "d": (1, 2), "e": 2.5},
+                      "reserved": {"p": payload, "self": 1, "cls": 2, "logger": 3, "job": 4, "handle": 5, "args": (6,), "kwargs": {"k": 7},
+                                   "timing": 8, "tags": {"t"}, "weight": 9, "coroutine": 10}}[o.get("kwshape", "one")]
             cell["want"] = (() if args is None else tuple(args), {} if kwargs is None else dict(kwargs))
             cell["orig_kwargs"] = kwargs
             if args is not None:
@@ -147,6 +160,7 @@ class AioRunner:
         import scheduler.asyncio as saio
 
         self.sched = saio.Scheduler(tzinfo=tz_of(self.scn.get("tz")), logger=self.logger)
+        self.logger.handlers = [self.handler]      # (a "late" handler is attached now)
         self.cop_errors = []
         obs_list = self.obs_list = []
         for o in self.scn["ops"]:
@@ -235,6 +249,8 @@ class AioRunner:
             obs["task_errors"] = self.task_errors()
             obs["trace"] = list(self.trace)
             obs["arg_failures"] = list(self.arg_failures)
+            obs["probes"] = list(self.probes)
+            self.probes = []
             # a coroutine deleted ANOTHER job at the very instant that job's coroutine started: which of the
             # two ready tasks runs first is the event loop's choice, not the scheduler's - not comparable
             starts = {(t, kk) for (t, kk, kind, _d) in self.events if kind == "S"}
